@@ -27,6 +27,8 @@ var c07Ops = func() []sop {
 	o = append(o, sop{Kind: "remove", MB: 1, Ref: "#1"}, sop{Kind: "remove", MB: 2, Ref: "#1"})
 	o = append(o, sop{Kind: "purge", MB: 0}, sop{Kind: "purge", MB: 1})
 	o = append(o, sop{Kind: "add", MB: 0, Body: 0, Back: true})
+	// a restart (file store: new process, the id counter starts again, so ids need not ascend)
+	o = append(o, sop{Kind: "reopen"})
 	return o
 }()
 
